@@ -111,6 +111,10 @@ func Start(prop, level string) *R {
 		}
 	}
 	r.deadline = r.start.Add(budget)
+	// worker processes of the same run (schedule search shards) inherit the deadline
+	if os.Getenv("VERIF_DEADLINE_UNIX") == "" {
+		os.Setenv("VERIF_DEADLINE_UNIX", strconv.FormatInt(r.deadline.Unix(), 10))
+	}
 	return r
 }
 
